@@ -194,6 +194,48 @@ ConcCase gen_conc(const std::string& property, const std::string& tier, uint64_t
     c.factory_yields = 0;
     return c;
   }
+  if (tier == "cold") {
+    // First-ever calls into the library, racing: every run of this part is the only execution of its
+    // process, so function-local statics, lazily created singletons and the empty cache are all cold.
+    ConcCase c;
+    c.property = property;
+    c.mode = "cold";
+    ZoneSpec a; a.key = "A"; a.base = "shipped:" + wl.pick(popular()); a.state = wl.chance(0.5) ? "absent" : (wl.chance(0.5) ? "badmagic" : "healthy");
+    ZoneSpec b; b.key = "B"; b.base = "shipped:Etc/UTC"; b.state = wl.chance(0.5) ? "healthy" : "absent";
+    c.zones.push_back(a); c.zones.push_back(b);
+    c.tz_env_zone = wl.chance(0.5) ? -2 : static_cast<int>(wl.below(2));
+    int k = static_cast<int>(wl.range(2, 4));
+    for (int t = 0; t < k; ++t) {
+      std::vector<Op> ops;
+      int n = static_cast<int>(wl.range(1, 4));
+      for (int i = 0; i < n; ++i) {
+        Op o;
+        switch (wl.below(7)) {
+          case 0: o.k = O_LOAD; o.z = 0; break;
+          case 1: o.k = O_LOAD; o.z = 1; break;
+          case 2: o.k = O_UTC; break;
+          case 3: o.k = O_DEFAULT; break;
+          case 4: o.k = O_FIXED; o.a = wl.pick(std::vector<int64_t>{0, 3600, -3600}); break;
+          case 5: o.k = O_LOCAL; break;
+          default: o.k = O_LOAD; o.z = static_cast<int>(wl.below(2)); break;
+        }
+        o.slot = i % c.nslots;
+        ops.push_back(o);
+        if (wl.chance(0.6)) { Op q; q.k = O_QUERY; q.slot = o.slot; q.q.k = wl.chance(0.5) ? Q_LOOKUP_TP : Q_NAME; q.q.a = 1700000000; ops.push_back(q); }
+        if (i > 0 && wl.chance(0.5)) { Op e; e.k = O_EQ; e.slot = o.slot; e.slot2 = (i - 1) % c.nslots; ops.push_back(e); }
+      }
+      c.tasks.push_back(ops);
+    }
+    // Every task takes every other task's handles at the end and compares: identity across tasks.
+    for (int t = 0; t < k; ++t) for (int u = 0; u < k; ++u) if (u != t) {
+      Op tk; tk.k = O_TAKE; tk.t2 = u; tk.slot2 = 0; tk.slot = 3; c.tasks[static_cast<size_t>(t)].push_back(tk);
+      Op e; e.k = O_EQ; e.slot = 3; e.slot2 = 0; c.tasks[static_cast<size_t>(t)].push_back(e);
+    }
+    gen_sched_knobs(&sc, &c);
+    c.sched.disabled_kinds &= ~((1u << Y_ATOMIC_LD) | (1u << Y_ATOMIC_ST) | (1u << Y_ATOMIC_RMW));
+    if (c.sched.chooser == CH_STICKY) c.sched.sticky_p = 0.5;
+    return c;
+  }
   if (tier == "hints") {
     // C14 multi-task hint histories: tasks share one zone and keep overwriting each other's hints.
     ConcCase c;
@@ -785,7 +827,7 @@ Outcome exec_conc(const ConcCase& c, bool keep_log, Stats* stats) {
   }
   bool after_toggle = false;
   for (auto& ts : x.toggle_seq) for (const LoadRec& lr : x.loads) if (lr.z == ts.second && lr.seq_inv > ts.first) after_toggle = true;
-  out.nontrivial = overlap || sr.contended_locks > 0 || (c14 && after_toggle) || (c.mode == "hints" && sr.switches > static_cast<int>(c.tasks.size()) * 2);
+  out.nontrivial = c.mode == "cold" || overlap || sr.contended_locks > 0 || (c14 && after_toggle) || (c.mode == "hints" && sr.switches > static_cast<int>(c.tasks.size()) * 2);
   uint64_t opsh = 0;
   { std::string s = conc_to_json(c).at("tasks").dump() + conc_to_json(c).at("zones").dump(); opsh = hash_str(s); }
   out.distinct_key = c.mode == "template" ? sr.sig_hash : mix64(sr.trace_hash, opsh);
